@@ -10,10 +10,11 @@ from .. import constval
 
 SIGNED = {"i8", "i16", "i32", "i64", "isize"}
 
-# functions whose signed indices are guarded by their (only) caller: callee suffix -> (caller path suffix, what the caller must test)
-CALLER_GUARDED = {
-    "jxl_modular::transform::palette::inverse_simple": ("jxl_modular::transform::palette::<impl jxl_modular::transform::Palette>::inverse_inner",
-                                                        "every palette index is tested against both bounds [0, nb_colours) before the fast path is taken"),
+# guard holders: a function that takes a fast path only when a predicate with a lower-bound test holds; every function reachable only
+# through that guarded call is covered (holder path suffix -> what the predicate must establish)
+GUARD_HOLDERS = {
+    "jxl_modular::transform::palette::<impl jxl_modular::transform::Palette>::inverse_inner":
+        "every palette index is tested against both bounds [0, nb_colours) before the fast path is taken",
 }
 # sites whose offsets come from constant kernel tables: (function suffix, constant paths, max |component|)
 CONST_KERNEL = {
@@ -141,7 +142,76 @@ def closures_reaching(prog, f, local, depth=0, seen=None):
             elif d[2] == "call":
                 for a in d[3][2]:
                     work.append(op_local(a))
+                c = callee(d[3])
+                g = prog.fn(c.get("res") or c["fn"]) if c else None
+                if g is not None and g.path not in seen and g.path.split("::")[0].lstrip("<&") == f.path.split("::")[0].lstrip("<&"):
+                    seen.add(g.path)
+                    out.append(g)
+                    nested_closures(prog, g, seen, out)
     return out
+
+
+def nested_closures(prog, g, seen, out, depth=0):
+    if depth > 4:
+        return
+    for blk in g.blocks:
+        for st in blk[0]:
+            if st[0] == "=" and st[2][0] == "agg" and st[2][1][0] == "closure":
+                h = prog.fn(st[2][1][1])
+                if h is not None and h.path not in seen:
+                    seen.add(h.path)
+                    out.append(h)
+                    nested_closures(prog, h, seen, out, depth + 1)
+
+
+def guarded_subtrees(prog, crates):
+    """{function path: (holder fn, reason)} for functions reachable only through a call that a guard holder makes under a predicate
+    containing a lower-bound test"""
+    fns = list(prog.all_fns(crates))
+    callers = {}
+    for g in fns:
+        for _, t in g.calls():
+            c = callee(t)
+            if c:
+                for nm in {c["fn"], c.get("res", c["fn"])}:
+                    callers.setdefault(nm, set()).add(g.path)
+    covered = {}
+    missing = []
+    for suf, why in GUARD_HOLDERS.items():
+        holder = next((g for g in fns if g.path.endswith(suf)), None)
+        if holder is None:
+            missing.append(suf)
+            continue
+        roots = set()
+        for cb, ct in holder.calls():
+            c = callee(ct)
+            tgt = prog.fn(c.get("res") or c["fn"]) if c else None
+            if tgt is None or tgt.path == holder.path:
+                continue
+            for sb in range(len(holder.blocks)):
+                st_ = holder.term(sb)
+                if st_[0] != "switch" or not holder.dominates(sb, cb) or sb == cb:
+                    continue
+                # the call must be on one side only of the switch (control-dependent), not merely after it
+                if all(cb in holder.reachable(x) for x in holder.succs(sb)):
+                    continue
+                cls = closures_reaching(prog, holder, op_local(st_[1]))
+                if cls and any(has_lower_bound_test(g) for g in cls):
+                    roots.add(tgt.path)
+        cov = set(roots)
+        changed = True
+        while changed:
+            changed = False
+            for g in fns:
+                if g.path in cov or g.path == holder.path:
+                    continue
+                cs = callers.get(g.path, set()) - {g.path}
+                if cs and cs <= cov:
+                    cov.add(g.path)
+                    changed = True
+        for x in cov:
+            covered[x] = (holder, why)
+    return covered, missing
 
 
 def has_lower_bound_test(g):
@@ -168,6 +238,18 @@ def run(ctx, crates=None):
                   "and offsets taken from constant kernel tables must stay within the reviewed magnitude")
     prog = ctx.prog
     n = 0
+    covered, missing = guarded_subtrees(prog, crates or LIB_CRATES)
+    for m in missing:
+        ctx.anchor_missing(rid, m)
+    for suf, why in GUARD_HOLDERS.items():
+        if suf in missing:
+            continue
+        if any(h.path.endswith(suf) for h, _ in covered.values()):
+            ctx.ok(rid, "guard-holder:%s" % suf.split("::")[-1], "fast-path call is control-dependent on a predicate with a lower-bound test; covers %d function(s)"
+                   % sum(1 for h, _ in covered.values() if h.path.endswith(suf)), nontrivial=True)
+        else:
+            ctx.bad(rid, "site:%s|caller-guard-missing" % suf, "%s takes its unchecked-index fast path without a predicate that tests the lower bound "
+                    "(%s): a negative palette index panics with an out-of-bounds index" % (suf.split("::")[-1], why))
     for f in prog.all_fns(crates or LIB_CRATES):
         sites = signed_index_sites(f)
         if not sites:
@@ -184,36 +266,15 @@ def run(ctx, crates=None):
                     ctx.ok(rid, key, why, nontrivial=True, fn=f)
                     done.add(key)
                 continue
-            ext = next((v for k, v in CALLER_GUARDED.items() if f.path.endswith(k) or k.endswith(f.path)), None)
             ker = next((v for k, v in CONST_KERNEL.items() if f.path.endswith(k)), None)
-            if ext is not None:
-                caller = next((g for g in prog.all_fns(crates or LIB_CRATES) if g.path.endswith(ext[0])), None)
-                if caller is None:
-                    ctx.anchor_missing(rid, ext[0])
-                    continue
-                # the call to f in caller is control-dependent on a flag; the closures computing the flag must test the lower bound
-                ok = False
-                cdefs = Defs(caller)
-                for cb, ct in caller.calls():
-                    c = callee(ct)
-                    if not (c and (c.get("res", c["fn"]) == f.path or c["fn"] == f.path)):
-                        continue
-                    for sb in range(len(caller.blocks)):
-                        st_ = caller.term(sb)
-                        if st_[0] != "switch" or not caller.dominates(sb, cb) or sb == cb:
-                            continue
-                        fl = op_local(st_[1])
-                        cls = closures_reaching(prog, caller, fl)
-                        if cls and any(has_lower_bound_test(g) for g in cls):
-                            ok = True
+            cov = covered.get(f.path)
+            if cov is None and "{closure" in f.path:
+                cov = covered.get(f.path.split("::{closure")[0])
+            if cov is not None:
                 if key + "|caller" not in done:
                     done.add(key + "|caller")
-                    if ok:
-                        ctx.ok(rid, key + "|caller-guard", "guarded in %s: %s" % (caller.path.split("::")[-1], ext[1]), nontrivial=True, fn=f)
-                    else:
-                        ctx.bad(rid, key + "|caller-guard-missing", "%s indexes with a signed sample cast to usize and relies on %s to have checked "
-                                "that %s - the predicate deciding the call no longer tests the lower bound: a negative value panics with an "
-                                "out-of-bounds index" % (f.path.split("::")[-1], caller.path.split("::")[-1], ext[1]), fn=caller, pos=pos)
+                    ctx.ok(rid, key + "|caller-guard", "reachable only through the fast-path call guarded in %s: %s" % (cov[0].path.split("::")[-1], cov[1]),
+                           nontrivial=True, fn=f)
                 continue
             if ker is not None:
                 bad_k = None
